@@ -13,8 +13,67 @@ def strip_comments(src):
     return re.sub(r"//[^\n]*", "", src)
 
 
+def visibility(src, pos):
+    """access label in force at `pos` of the class text (a `class` starts private)"""
+    labels = [(m.start(), m.group(1)) for m in re.finditer(r"\b(private|public|protected)\s*:", src[:pos])]
+    return labels[-1][1] if labels else "private"
+
+
+def call_span(body, name):
+    """(start, end) of the first unqualified call `name(...)` in body, or None"""
+    m = re.search(r"(?<![\.\w>:])" + re.escape(name) + r"\s*\(", body)
+    if not m:
+        return None
+    i, d = m.end(), 1
+    while d and i < len(body):
+        d += {"(": 1, ")": -1}.get(body[i], 0)
+        i += 1
+    return m.start(), i
+
+
+def inline_helpers(body, helpers, depth=0):
+    """textual inlining of private helper member functions into the body of their caller, so that the accesses and notifications they make are
+    attributed to the public method that runs them (with that method's lock).  `return A && helper(...);` is first rewritten to the equivalent
+    `if (!(A)) return false; helper(...);`.  A call that sits under a condition (if / else / loop / ?: / && / ||) is inlined inside an
+    `if (1) { ... }` so that what it does stays visibly conditional.  The call expression itself is replaced by `true`."""
+    if depth > 3:
+        return body
+    for _ in range(40):
+        hit = None
+        for name in helpers:
+            sp = call_span(body, name)
+            if sp and (hit is None or sp[0] < hit[1][0]):
+                hit = (name, sp)
+        if hit is None:
+            break
+        name, (cs, ce) = hit
+        hb = inline_helpers(helpers[name], {k: v for k, v in helpers.items() if k != name}, depth + 1)
+        st = max(body.rfind(";", 0, cs), body.rfind("{", 0, cs), body.rfind("}", 0, cs)) + 1
+        prefix = body[st:cs]
+        rm = re.match(r"\s*return\s+(.+?)\s*&&\s*$", prefix, flags=re.S)
+        if rm and re.match(r"\s*;", body[ce:]):
+            semi = body.find(";", ce)
+            body = body[:st] + f" if (!({rm.group(1)})) return false; {hb} " + body[semi + 1:]
+            continue
+        guarded = bool(re.search(r"\b(if|else|while|for)\b", prefix)) or any(t in prefix for t in ("?", "&&", "||"))
+        ins = f" if (1) {{ {hb} }} " if guarded else f" {hb} "
+        body = body[:st] + ins + body[st:cs] + "true" + body[ce:]
+    return body
+
+
 def methods(src):
-    """(name, body) of every member function defined in the class body"""
+    """(name, body) of every member function defined in the class body; private helper functions that other member functions call are
+    inlined into their callers and not listed themselves"""
+    raw = raw_methods(src)
+    names = [n for n, _, _ in raw]
+    helpers = {}
+    for n, b, vis in raw:
+        if vis == "private" and any(call_span(b2, n) for n2, b2, _ in raw if n2 != n):
+            helpers[n] = b
+    return [(n, inline_helpers(b, helpers)) for n, b, vis in raw if n not in helpers]
+
+
+def raw_methods(src):
     out = []
     for m in re.finditer(r"\b(bool|void|size_t)\s+(\w+)\s*\(", src):
         name = m.group(2)
@@ -32,7 +91,7 @@ def methods(src):
         while depth and i < len(src):
             depth += {"{": 1, "}": -1}.get(src[i], 0)
             i += 1
-        out.append((name, src[start:i - 1]))
+        out.append((name, src[start:i - 1], visibility(src, m.start())))
     return out
 
 
